@@ -112,6 +112,56 @@ pub fn f1600_uf(st: &mut [u64; 25]) {
     }
 }
 
+// ---------------------------------------------------------------------------
+// Keccak-f[1600] as a collision-free random oracle (memo table over all calls)
+// ---------------------------------------------------------------------------
+
+pub const ROLOG: usize = 72;
+pub static mut RO_N: usize = 0;
+pub static mut RO_PRE: [[u64; 25]; ROLOG] = [Z; ROLOG];
+pub static mut RO_OUT: [[u64; 25]; ROLOG] = [Z; ROLOG];
+/// number of calls answered from the memo table (input seen before)
+pub static mut RO_HITS: usize = 0;
+
+/// Ideal-permutation model used for every "equal iff" claim: a call whose 200-byte
+/// input equals an earlier call's input returns that call's output (function
+/// property); any other call returns a fresh arbitrary state that is *assumed* to
+/// differ from every earlier output in its first 16 bytes (no truncated collision —
+/// the stated cryptographic assumption; every digest/key/tag/MAC/keystream of the
+/// protocol starts at byte 0 of a permutation output).
+pub fn f1600_ro(st: &mut [u64; 25]) {
+    unsafe {
+        let k = RO_N;
+        assert!(k < ROLOG, "permutation log overflow");
+        RO_PRE[k] = *st;
+        let fresh: [u64; 25] = kani::any();
+        let mut out = fresh;
+        let mut hit = false;
+        let mut j = 0;
+        while j < k {
+            if st_eq(&RO_PRE[j], st) {
+                out = RO_OUT[j];
+                hit = true;
+            }
+            kani::assume(fresh[0] != RO_OUT[j][0] || fresh[1] != RO_OUT[j][1]);
+            j += 1;
+        }
+        if hit {
+            RO_HITS += 1;
+        }
+        RO_OUT[k] = out;
+        *st = out;
+        RO_N = k + 1;
+    }
+}
+
+pub fn ro_reset() {
+    unsafe {
+        RO_N = 0;
+        RO_HITS = 0;
+    }
+}
+
 /// Permutation returning fresh arbitrary values and logging nothing: crash-freedom
 /// harnesses, where the claim is "for every behaviour of the permutation".
 pub fn f1600_any(st: &mut [u64; 25]) {
@@ -250,3 +300,79 @@ pub fn drop_noop_access(_s: &mut adss::AccessStructure) {}
 pub fn drop_noop_commune(_s: &mut adss::Commune) {}
 pub fn drop_noop_mg(_s: &mut sta_rs::MessageGenerator) {}
 pub fn drop_noop_measurement(_s: &mut sta_rs::SingleMeasurement) {}
+
+/// `Fp::is_valid` (private, derived): used with the *real* `Fp::random` — the
+/// candidate is assumed valid, so the rejection loop exits in its first pass
+/// ("conditioned on acceptance"); also logs the accepted candidate.
+pub fn fp_is_valid_assume(f: &Fp) -> bool {
+    let l = fp_limbs(f);
+    kani::assume(limbs_lt_p(&l));
+    unsafe {
+        if FP_RANDOM_CALLS < 8 {
+            FP_RANDOM_LOG[FP_RANDOM_CALLS] = l;
+        }
+        FP_RANDOM_CALLS += 1;
+    }
+    true
+}
+
+// ---------------------------------------------------------------------------
+// byteorder: the 200-byte <-> 25-lane conversions around the permutation, written
+// loop-free (same function, cheaper symbolic execution). Only used with 25 lanes.
+// ---------------------------------------------------------------------------
+pub fn read_u64_into_25(src: &[u8], dst: &mut [u64]) {
+    assert!(src.len() == 200 && dst.len() == 25);
+    dst[0] = u64::from_le_bytes([src[0], src[1], src[2], src[3], src[4], src[5], src[6], src[7]]);
+    dst[1] = u64::from_le_bytes([src[8], src[9], src[10], src[11], src[12], src[13], src[14], src[15]]);
+    dst[2] = u64::from_le_bytes([src[16], src[17], src[18], src[19], src[20], src[21], src[22], src[23]]);
+    dst[3] = u64::from_le_bytes([src[24], src[25], src[26], src[27], src[28], src[29], src[30], src[31]]);
+    dst[4] = u64::from_le_bytes([src[32], src[33], src[34], src[35], src[36], src[37], src[38], src[39]]);
+    dst[5] = u64::from_le_bytes([src[40], src[41], src[42], src[43], src[44], src[45], src[46], src[47]]);
+    dst[6] = u64::from_le_bytes([src[48], src[49], src[50], src[51], src[52], src[53], src[54], src[55]]);
+    dst[7] = u64::from_le_bytes([src[56], src[57], src[58], src[59], src[60], src[61], src[62], src[63]]);
+    dst[8] = u64::from_le_bytes([src[64], src[65], src[66], src[67], src[68], src[69], src[70], src[71]]);
+    dst[9] = u64::from_le_bytes([src[72], src[73], src[74], src[75], src[76], src[77], src[78], src[79]]);
+    dst[10] = u64::from_le_bytes([src[80], src[81], src[82], src[83], src[84], src[85], src[86], src[87]]);
+    dst[11] = u64::from_le_bytes([src[88], src[89], src[90], src[91], src[92], src[93], src[94], src[95]]);
+    dst[12] = u64::from_le_bytes([src[96], src[97], src[98], src[99], src[100], src[101], src[102], src[103]]);
+    dst[13] = u64::from_le_bytes([src[104], src[105], src[106], src[107], src[108], src[109], src[110], src[111]]);
+    dst[14] = u64::from_le_bytes([src[112], src[113], src[114], src[115], src[116], src[117], src[118], src[119]]);
+    dst[15] = u64::from_le_bytes([src[120], src[121], src[122], src[123], src[124], src[125], src[126], src[127]]);
+    dst[16] = u64::from_le_bytes([src[128], src[129], src[130], src[131], src[132], src[133], src[134], src[135]]);
+    dst[17] = u64::from_le_bytes([src[136], src[137], src[138], src[139], src[140], src[141], src[142], src[143]]);
+    dst[18] = u64::from_le_bytes([src[144], src[145], src[146], src[147], src[148], src[149], src[150], src[151]]);
+    dst[19] = u64::from_le_bytes([src[152], src[153], src[154], src[155], src[156], src[157], src[158], src[159]]);
+    dst[20] = u64::from_le_bytes([src[160], src[161], src[162], src[163], src[164], src[165], src[166], src[167]]);
+    dst[21] = u64::from_le_bytes([src[168], src[169], src[170], src[171], src[172], src[173], src[174], src[175]]);
+    dst[22] = u64::from_le_bytes([src[176], src[177], src[178], src[179], src[180], src[181], src[182], src[183]]);
+    dst[23] = u64::from_le_bytes([src[184], src[185], src[186], src[187], src[188], src[189], src[190], src[191]]);
+    dst[24] = u64::from_le_bytes([src[192], src[193], src[194], src[195], src[196], src[197], src[198], src[199]]);
+}
+pub fn write_u64_into_25(src: &[u64], dst: &mut [u8]) {
+    assert!(src.len() == 25 && dst.len() == 200);
+    { let b = src[0].to_le_bytes(); dst[0] = b[0]; dst[1] = b[1]; dst[2] = b[2]; dst[3] = b[3]; dst[4] = b[4]; dst[5] = b[5]; dst[6] = b[6]; dst[7] = b[7]; }
+    { let b = src[1].to_le_bytes(); dst[8] = b[0]; dst[9] = b[1]; dst[10] = b[2]; dst[11] = b[3]; dst[12] = b[4]; dst[13] = b[5]; dst[14] = b[6]; dst[15] = b[7]; }
+    { let b = src[2].to_le_bytes(); dst[16] = b[0]; dst[17] = b[1]; dst[18] = b[2]; dst[19] = b[3]; dst[20] = b[4]; dst[21] = b[5]; dst[22] = b[6]; dst[23] = b[7]; }
+    { let b = src[3].to_le_bytes(); dst[24] = b[0]; dst[25] = b[1]; dst[26] = b[2]; dst[27] = b[3]; dst[28] = b[4]; dst[29] = b[5]; dst[30] = b[6]; dst[31] = b[7]; }
+    { let b = src[4].to_le_bytes(); dst[32] = b[0]; dst[33] = b[1]; dst[34] = b[2]; dst[35] = b[3]; dst[36] = b[4]; dst[37] = b[5]; dst[38] = b[6]; dst[39] = b[7]; }
+    { let b = src[5].to_le_bytes(); dst[40] = b[0]; dst[41] = b[1]; dst[42] = b[2]; dst[43] = b[3]; dst[44] = b[4]; dst[45] = b[5]; dst[46] = b[6]; dst[47] = b[7]; }
+    { let b = src[6].to_le_bytes(); dst[48] = b[0]; dst[49] = b[1]; dst[50] = b[2]; dst[51] = b[3]; dst[52] = b[4]; dst[53] = b[5]; dst[54] = b[6]; dst[55] = b[7]; }
+    { let b = src[7].to_le_bytes(); dst[56] = b[0]; dst[57] = b[1]; dst[58] = b[2]; dst[59] = b[3]; dst[60] = b[4]; dst[61] = b[5]; dst[62] = b[6]; dst[63] = b[7]; }
+    { let b = src[8].to_le_bytes(); dst[64] = b[0]; dst[65] = b[1]; dst[66] = b[2]; dst[67] = b[3]; dst[68] = b[4]; dst[69] = b[5]; dst[70] = b[6]; dst[71] = b[7]; }
+    { let b = src[9].to_le_bytes(); dst[72] = b[0]; dst[73] = b[1]; dst[74] = b[2]; dst[75] = b[3]; dst[76] = b[4]; dst[77] = b[5]; dst[78] = b[6]; dst[79] = b[7]; }
+    { let b = src[10].to_le_bytes(); dst[80] = b[0]; dst[81] = b[1]; dst[82] = b[2]; dst[83] = b[3]; dst[84] = b[4]; dst[85] = b[5]; dst[86] = b[6]; dst[87] = b[7]; }
+    { let b = src[11].to_le_bytes(); dst[88] = b[0]; dst[89] = b[1]; dst[90] = b[2]; dst[91] = b[3]; dst[92] = b[4]; dst[93] = b[5]; dst[94] = b[6]; dst[95] = b[7]; }
+    { let b = src[12].to_le_bytes(); dst[96] = b[0]; dst[97] = b[1]; dst[98] = b[2]; dst[99] = b[3]; dst[100] = b[4]; dst[101] = b[5]; dst[102] = b[6]; dst[103] = b[7]; }
+    { let b = src[13].to_le_bytes(); dst[104] = b[0]; dst[105] = b[1]; dst[106] = b[2]; dst[107] = b[3]; dst[108] = b[4]; dst[109] = b[5]; dst[110] = b[6]; dst[111] = b[7]; }
+    { let b = src[14].to_le_bytes(); dst[112] = b[0]; dst[113] = b[1]; dst[114] = b[2]; dst[115] = b[3]; dst[116] = b[4]; dst[117] = b[5]; dst[118] = b[6]; dst[119] = b[7]; }
+    { let b = src[15].to_le_bytes(); dst[120] = b[0]; dst[121] = b[1]; dst[122] = b[2]; dst[123] = b[3]; dst[124] = b[4]; dst[125] = b[5]; dst[126] = b[6]; dst[127] = b[7]; }
+    { let b = src[16].to_le_bytes(); dst[128] = b[0]; dst[129] = b[1]; dst[130] = b[2]; dst[131] = b[3]; dst[132] = b[4]; dst[133] = b[5]; dst[134] = b[6]; dst[135] = b[7]; }
+    { let b = src[17].to_le_bytes(); dst[136] = b[0]; dst[137] = b[1]; dst[138] = b[2]; dst[139] = b[3]; dst[140] = b[4]; dst[141] = b[5]; dst[142] = b[6]; dst[143] = b[7]; }
+    { let b = src[18].to_le_bytes(); dst[144] = b[0]; dst[145] = b[1]; dst[146] = b[2]; dst[147] = b[3]; dst[148] = b[4]; dst[149] = b[5]; dst[150] = b[6]; dst[151] = b[7]; }
+    { let b = src[19].to_le_bytes(); dst[152] = b[0]; dst[153] = b[1]; dst[154] = b[2]; dst[155] = b[3]; dst[156] = b[4]; dst[157] = b[5]; dst[158] = b[6]; dst[159] = b[7]; }
+    { let b = src[20].to_le_bytes(); dst[160] = b[0]; dst[161] = b[1]; dst[162] = b[2]; dst[163] = b[3]; dst[164] = b[4]; dst[165] = b[5]; dst[166] = b[6]; dst[167] = b[7]; }
+    { let b = src[21].to_le_bytes(); dst[168] = b[0]; dst[169] = b[1]; dst[170] = b[2]; dst[171] = b[3]; dst[172] = b[4]; dst[173] = b[5]; dst[174] = b[6]; dst[175] = b[7]; }
+    { let b = src[22].to_le_bytes(); dst[176] = b[0]; dst[177] = b[1]; dst[178] = b[2]; dst[179] = b[3]; dst[180] = b[4]; dst[181] = b[5]; dst[182] = b[6]; dst[183] = b[7]; }
+    { let b = src[23].to_le_bytes(); dst[184] = b[0]; dst[185] = b[1]; dst[186] = b[2]; dst[187] = b[3]; dst[188] = b[4]; dst[189] = b[5]; dst[190] = b[6]; dst[191] = b[7]; }
+    { let b = src[24].to_le_bytes(); dst[192] = b[0]; dst[193] = b[1]; dst[194] = b[2]; dst[195] = b[3]; dst[196] = b[4]; dst[197] = b[5]; dst[198] = b[6]; dst[199] = b[7]; }
+}
